@@ -37,6 +37,22 @@ type e2eCase struct {
 	Skipped string     `json:"skipped,omitempty"`
 	Seed    int64      `json:"case_seed"`
 	Local   string     `json:"local,omitempty"` // prefix made local to the namespace (application scans)
+	Pin     bool       `json:"pin,omitempty"`   // run sx pinned to ONE cpu (runtime.NumCPU() == 1)
+	Opt     string     `json:"opt,omitempty"`   // the option the case combines the exclusion file with
+	Bad     string     `json:"bad,omitempty"`   // kind of the refused exclusion line
+}
+
+// firstCPU is one CPU this process may run on (for taskset).
+func firstCPU() string {
+	b, _ := os.ReadFile("/proc/self/status")
+	for _, l := range strings.Split(string(b), "\n") {
+		if strings.HasPrefix(l, "Cpus_allowed_list:") {
+			f := strings.TrimSpace(strings.TrimPrefix(l, "Cpus_allowed_list:"))
+			f = strings.FieldsFunc(f, func(c rune) bool { return c == ',' || c == '-' })[0]
+			return f
+		}
+	}
+	return "0"
 }
 
 func htons(v uint16) uint16 { return v<<8 | v>>8 }
@@ -207,7 +223,11 @@ func runE2E(sx string, c *e2eCase, idx int) {
 		c.Skipped = "the wire log cannot open its packet socket"
 		return
 	}
-	args := append([]string{"netns", "exec", ns, sx}, c.Argv...)
+	args := []string{"netns", "exec", ns}
+	if c.Pin {
+		args = append(args, "taskset", "-c", firstCPU())
+	}
+	args = append(append(args, sx), c.Argv...)
 	cmd := exec.Command("ip", args...)
 	if c.Stdin != "" {
 		cmd.Stdin = strings.NewReader(c.Stdin)
@@ -286,6 +306,13 @@ func e2eCases(r *hlib.SplitMix64, n int) []e2eCase {
 		return o
 	}
 	for round := 0; len(cs) < n; round++ {
+		if round == 1 {
+			// after the first round of scenario cases: every packet command, normally and on one CPU
+			cs = append(cs, tableCases(r, len(cs))...)
+			if len(cs) >= n {
+				break
+			}
+		}
 		o := base + uint32(1+r.Intn(200))<<8
 		// 1. tcp subnet x ports with one excluded host
 		{
@@ -368,6 +395,76 @@ func e2eCases(r *hlib.SplitMix64, n int) []e2eCase {
 	return cs[:n]
 }
 
+// packetCommands: every packet command of newRootCmd with the arguments a small scan needs.
+func packetCommands() [][]string {
+	ip4 := []string{"--gwmac", "02:00:00:00:00:02", "-a", tmpDir + "/empty.cache"}
+	cat := func(a ...[]string) []string {
+		var o []string
+		for _, x := range a {
+			o = append(o, x...)
+		}
+		return o
+	}
+	return [][]string{
+		{"arp"},
+		cat([]string{"icmp"}, ip4),
+		cat([]string{"udp"}, ip4, []string{"-p", "53,123"}),
+		cat([]string{"tcp"}, ip4, []string{"-p", "80-81"}),
+		cat([]string{"tcp", "syn"}, ip4, []string{"-p", "80-81"}),
+		cat([]string{"tcp", "fin"}, ip4, []string{"-p", "80-81"}),
+		cat([]string{"tcp", "null"}, ip4, []string{"-p", "80-81"}),
+		cat([]string{"tcp", "xmas"}, ip4, []string{"-p", "80-81"}),
+		cat([]string{"tcp", "--flags", "syn,ack"}, ip4, []string{"-p", "80-81"}),
+	}
+}
+
+func cmdName(c []string) string {
+	if len(c) > 1 && c[0] == "tcp" && !strings.HasPrefix(c[1], "-") {
+		return "tcp-" + c[1]
+	}
+	if len(c) > 1 && c[1] == "--flags" {
+		return "tcp-flags"
+	}
+	return c[0]
+}
+
+func cmdProto(c []string) (string, []int) {
+	switch c[0] {
+	case "arp":
+		return "arp", []int{0}
+	case "icmp":
+		return "icmp", []int{0}
+	case "udp":
+		return "udp", []int{53, 123}
+	}
+	return "tcp", []int{80, 81}
+}
+
+// tableCases: every packet command on a /30, once normally and once pinned to one CPU.
+func tableCases(r *hlib.SplitMix64, seedBase int) []e2eCase {
+	os.WriteFile(tmpDir+"/empty.cache", nil, 0o644)
+	var cs []e2eCase
+	o := uint32(10<<24|77<<16) + uint32(201+r.Intn(50))<<8
+	for i, c := range packetCommands() {
+		proto, ports := cmdProto(c)
+		for _, pin := range []bool{true, false} {
+			a := o | uint32(4*((2*i)%60)) | map[bool]uint32{true: 0, false: 128}[pin]
+			var addrs []uint32
+			for j := uint32(0); j < 4; j++ {
+				addrs = append(addrs, a+j)
+			}
+			argv := append(append([]string{}, c...), "-i", "v0", "--exit-delay", "150ms", "--json", tgt.Dotted(a)+"/30")
+			class := cmdName(c) + ":table"
+			if pin {
+				class = cmdName(c) + ":one-cpu"
+			}
+			w := crossWant(addrs, ports)
+			cs = append(cs, e2eCase{Kind: "e2e", Class: class, Proto: proto, Argv: argv, Want: w, NWant: len(w), Pin: pin, Seed: int64(seedBase + len(cs))})
+		}
+	}
+	return cs
+}
+
 // refusedCases: every command with a target that is not IPv4: nothing may reach the wire, exit status != 0
 func refusedCases(r *hlib.SplitMix64, n int) []e2eCase {
 	os.WriteFile(tmpDir+"/empty.cache", nil, 0o644)
@@ -383,15 +480,83 @@ func refusedCases(r *hlib.SplitMix64, n int) []e2eCase {
 		{"docker", "--exit-delay", "100ms", "-p", "2375", "-t", "200ms"},
 	}
 	var cs []e2eCase
-	// every target once, commands in rotation; then random pairs
-	for i := 0; len(cs) < n; i++ {
-		t := targets[i%len(targets)]
-		c := cmds[i%len(cmds)]
-		if i >= len(targets) {
-			t, c = targets[r.Intn(len(targets))], cmds[r.Intn(len(cmds))]
+	// every target once, commands in rotation
+	for i := 0; i < len(targets); i++ {
+		argv := append(append([]string{}, cmds[i%len(cmds)]...), targets[i])
+		cs = append(cs, e2eCase{Kind: "e2e", Class: "refuse:" + cmds[i%len(cmds)][0], Proto: "any", Argv: argv, Seed: int64(i)})
+	}
+	// exclusion FILES through the real option parsing of every command: a file with valid lines and one line that
+	// must be refused, combined with each of -i / --srcmac / -r (and none): exit status 1, nothing on the wire;
+	// and the accepted counterpart: the same valid lines alone -> the scan runs and leaves the listed addresses out
+	o := uint32(10<<24|77<<16) + uint32(100+r.Intn(100))<<8
+	valid := fmt.Sprintf("%s/30\n# note\n%s\n", tgt.Dotted(o|8), tgt.Dotted(o|3))
+	bads := map[string]string{"invalid": "10.0.0.256\n", "ipv6": "fe80::/10\n", "overlong": "10.9.9.9 #" + strings.Repeat("x", 70000) + "\n"}
+	badKinds := []string{"invalid", "ipv6", "overlong"}
+	files := map[string]string{}
+	for k, b := range bads {
+		files[k] = tgt.WriteTemp(tmpDir, "exbad-"+k+".txt", valid+b+tgt.Dotted(o|5)+"\n")
+	}
+	okFile := tgt.WriteTemp(tmpDir, "exok.txt", valid)
+	opts := map[string][]string{"none": nil, "iface": {"-i", "v0"}, "srcmac": {"--srcmac", "02:00:00:00:00:09"}, "rate": {"-r", "5000/s"}}
+	optNames := []string{"iface", "srcmac", "rate", "none"}
+	generic := [][]string{{"socks", "-p", "1080", "-t", "200ms"}, {"elastic", "-p", "9200", "-t", "200ms"}, {"docker", "-p", "2375", "-t", "200ms"}}
+	target := tgt.Dotted(o) + "/28"
+	mkBad := func(c []string, opt, bad string) {
+		argv := append(append(append([]string{}, c...), opts[opt]...), "--exit-delay", "100ms", "--exclude", files[bad], target)
+		cs = append(cs, e2eCase{Kind: "e2e", Class: "badexclude:" + cmdName(c), Proto: "any", Argv: argv, Opt: opt, Bad: bad, Seed: int64(len(cs))})
+	}
+	mkOK := func(c []string, opt string) {
+		proto, ports := cmdProto(c)
+		var addrs []uint32
+		for j := uint32(0); j < 16; j++ {
+			if j == 3 || (j >= 8 && j < 12) {
+				continue
+			}
+			addrs = append(addrs, o+j)
 		}
+		argv := append(append(append([]string{}, c...), opts[opt]...), "--exit-delay", "150ms", "--json", "--exclude", okFile, target)
+		w := crossWant(addrs, ports)
+		cs = append(cs, e2eCase{Kind: "e2e", Class: "exclude-ok:" + cmdName(c), Proto: proto, Argv: argv, Want: w, NWant: len(w), Opt: opt, Seed: int64(len(cs))})
+	}
+	pk := packetCommands()
+	// quick rotation: every command once, options and kinds of bad line in rotation (none excluded: it hides nothing)
+	for i, c := range pk {
+		mkBad(c, optNames[i%3], badKinds[i%3])
+	}
+	for i, c := range generic {
+		mkBad(c, []string{"rate", "none", "rate"}[i], badKinds[i%3])
+	}
+	for i, c := range pk {
+		if i < 4 || i == 6 {
+			mkOK(c, optNames[(i+1)%3])
+		}
+	}
+	// the full table
+	if n > len(cs) {
+		for _, c := range pk {
+			for _, opt := range optNames {
+				for _, bad := range badKinds {
+					mkBad(c, opt, bad)
+				}
+				mkOK(c, opt)
+			}
+		}
+		for _, c := range generic {
+			for _, opt := range []string{"rate", "none"} {
+				for _, bad := range badKinds {
+					mkBad(c, opt, bad)
+				}
+			}
+		}
+	}
+	// then random target / command pairs
+	for i := len(cs); len(cs) < n; i++ {
+		t, c := targets[r.Intn(len(targets))], cmds[r.Intn(len(cmds))]
 		argv := append(append([]string{}, c...), t)
 		cs = append(cs, e2eCase{Kind: "e2e", Class: "refuse:" + c[0], Proto: "any", Argv: argv, Seed: int64(i)})
+	}
+	if n < len(cs) {
+		cs = cs[:n]
 	}
 	return cs
 }
@@ -402,9 +567,21 @@ func mainE2E(w *hlib.Out, sx string, seed int64, n int, set string) {
 	if set == "refuse" {
 		cases = refusedCases
 	}
-	for i, c := range cases(r, n) {
-		c := c
-		runE2E(sx, &c, i)
+	all := cases(r, n)
+	// every run has its own namespace: a few at a time
+	sem := make(chan struct{}, 4)
+	var wg sync.WaitGroup
+	for i := range all {
+		wg.Add(1)
+		sem <- struct{}{}
+		go func(i int) {
+			defer wg.Done()
+			defer func() { <-sem }()
+			runE2E(sx, &all[i], i)
+		}(i)
+	}
+	wg.Wait()
+	for _, c := range all {
 		sort.Slice(c.Want, func(a, b int) bool {
 			if c.Want[a][0] != c.Want[b][0] {
 				return c.Want[a][0] < c.Want[b][0]
